@@ -224,6 +224,24 @@ def generate(lib_rs):
     i = src.index("mqtt.poll(|client, topic, payload, properties| {")
     j = src.index("{", i)
     body = src[j:M.match_close(src, j, "{", "}") + 1]
+    # what `poll()` does around the closure (skeleton-checked as squashed text, log macros aside): the destructuring of
+    # `self`, `Ok(None)` ↦ `State::default()` = Unchanged, `SessionReset` ↦ the `Reset` event and `Ok(Unchanged)`, any other
+    # error handed to the caller — the model's `pollStep` for `idle` / `sessionReset` / `error`
+    sig_p, text_p = M.find_fn(src, "poll")
+    if re.sub(r"\s+", " ", sig_p) != "fn poll(&mut self, settings: &mut Settings) -> Result<State, Error<Stack::Error>>":
+        raise Unsupported(f"poll(): signature {sig_p!r}")
+    k0, k1 = text_p.index("mqtt.poll(|client, topic, payload, properties| {"), None
+    kb = text_p.index("{", k0)
+    k1 = M.match_close(text_p, kb, "{", "}")
+    squash = lambda t: re.sub(r"\s+", "", re.sub(r"\b(?:info|warn|error|debug|trace)!\((?:[^()]|\([^()]*\))*\);", "", t))
+    if squash(text_p[:k0]) != "{letSelf{mqtt,state,prefix,pending,..}=self;":
+        raise Unsupported(f"poll(): prologue {squash(text_p[:k0])!r}")
+    want_tail = (").map(Option::unwrap_or_default).or_else(|err|matcherr{minimq::Error::SessionReset=>{"
+                 "self.state.process_event(sm::Events::Reset).unwrap();Ok(State::Unchanged)}other=>Err(other.into()),})}")
+    if squash(text_p[k1 + 1:]) != want_tail:
+        raise Unsupported(f"poll(): what follows the closure changed: {squash(text_p[k1 + 1:])!r}")
+    if not re.search(r"enum State \{\s*#\[default\]\s*Unchanged,\s*Changed,\s*\}", src):
+        raise Unsupported("enum State: `#[default] Unchanged, Changed` expected")
     b = prep_closure(M.parse_block(body))
     ctors = {"State::Unchanged": "Ret.Unchanged", "State::Changed": "Ret.Changed",
              "sm::States::Single": "SmState.Single", "sm::Events::Multipart": "SmEvent.Multipart",
